@@ -23,7 +23,8 @@ def density_nontrivial(evs):
 DENSITY_JOB = job("density",
     harness="density_rec", inc=["common", "density"], spec="TraceDensity", owners=["C20"], serde=True,
     files={Q: 8, T: 48},
-    args=lambda tier, seed, k, profile: ["--seed", seed, "--segments", 8 if tier == Q else 12, "--events", 260 + 40 * (k % 4),
+    args=lambda tier, seed, k, profile: ["--seed", seed, "--segments", 8 if tier == Q else 12, "--events", (260 if tier == Q else 500) + 40 * (k % 4),
+                                         "--bigk", 0 if tier == Q else 25,
                                          "--serde", 20 if profile == "serde" else 4, "--far", 12,
                                          "--hdr", 70 if profile == "serde" else 12],
     nontrivial=density_nontrivial,
